@@ -327,9 +327,55 @@ def run_case(ctx, seed, idx):
                 targets.reverse()
             ctx.count('sibling_classes')
         peer.take()                       # InterfacesAdded signals
+        others = None
+        if idx % 4 == 2:
+            # two more connections of the same process (session and system bus, say): one exports ANOTHER object at the
+            # very same path, one exports nothing.  "Exported" is a matter of each connection.
+            p2, p3 = clientfix.Peer().ready(), clientfix.Peer().ready()
+            other_log = []
+            ocls = type('Elsewhere%s' % idx, (O.DBusObject,), {
+                'dbusInterfaces': [I.DBusInterface('org.verif.c10.Elsewhere', I.Method('Where', returns='s'), noRegister=True)],
+                'dbus_Where': lambda self_: other_log.append('where') or 'elsewhere'})
+            d_first = d
+            p2.proto.exportObject(ocls(d_first.path))
+            p2.take()
+            others = (p2, p3, other_log, d_first)
+            ctx.count('cases_with_other_connections_in_the_process')
         for d in targets:
             if not drive(ctx, seed, idx, r, d, peer, case):
                 return
+        if others is not None:
+            p2, p3, other_log, d0 = others
+            n_log = len(LOG)
+            n0, ms0 = d0.ifaces[0]
+            m0 = sorted(ms0)[0]
+            probes = [(p3, d0.path, n0, m0, 'error', 'org.freedesktop.DBus.Error.UnknownObject'),
+                      (p2, d0.path, n0, m0, 'error', None),
+                      (p2, d0.path, 'org.verif.c10.Elsewhere', 'Where', 'return', ['elsewhere'])]
+            for k, (pp, path_, iface_, member_, want_kind, want) in enumerate(probes):
+                pp.take()
+                pp.send(RM.build(RM.METHOD_CALL, 7000 + k, {'path': path_, 'member': member_, 'interface': iface_,
+                                                            'destination': clientfix.UNIQUE, 'sender': SENDER}, '', []))
+                reps = [m for m in pp.take() if m.fields.get('reply_serial') == 7000 + k]
+                w_ = {'probe': k, 'path': path_, 'interface': iface_, 'member': member_,
+                      'replies': [(m.mtype, m.fields.get('error_name'), repr(m.body)[:80]) for m in reps]}
+                good = len(reps) == 1 and ((want_kind == 'error' and reps[0].mtype == RM.ERROR and
+                                            (want is None or reps[0].fields.get('error_name') == want)) or
+                                           (want_kind == 'return' and reps[0].mtype == RM.METHOD_RETURN and reps[0].body == want))
+                if not good or len(LOG) != n_log:
+                    ctx.report('export-table-shared-between-connections', 'a call arriving on ANOTHER connection of the process '
+                               '(%s) for %s %s.%s was answered %r%s' % (
+                                   'which exports nothing' if pp is p3 else 'which exports a different object at that path',
+                                   path_, iface_, member_, w_['replies'],
+                                   '; an implementation exported on the first connection ran' if len(LOG) != n_log else ''),
+                               w_, case)
+                    return
+            if other_log != ['where']:
+                ctx.report('export-table-shared-between-connections', 'the object exported on the second connection ran %r' % (
+                    other_log,), {}, case)
+                return
+            for pp in (p2, p3):
+                pp.lose()
         if idx % 5 == 1:
             # another object with OTHER declarations of the same interface names is exported on the same path (export
             # replaces what was there): calls are judged by what is exported now, not by what was called before
